@@ -349,6 +349,13 @@ func genReconn(r *Rng, prop string) *Scenario {
 			if prop == "C15" && op.QoS > 0 && r.chance(0.5) {
 				op.PresetID = uint16(r.between(50000, 65000)) // the caller's own identifier
 			}
+			if prop == "C01" && op.QoS > 0 && r.chance(0.15) {
+				// the caller's own identifier, unique per message and half a block
+				// away from the identifiers any connection chooses itself
+				if id := uint16((cfg.InitIDs[0] + 2048 + uint32(tok)) & 0xFFFF); id != 0 {
+					op.PresetID = id
+				}
+			}
 		case 1:
 			op.Kind = "subscribe"
 			n := 1
@@ -702,6 +709,40 @@ func genReconn(r *Rng, prop string) *Scenario {
 		lastOp = connectAt + 8*cfg.PingIntervalUs
 	}
 
+	if prop == "C13" && !cfg.EarlyReply && r.chance(0.08) {
+		// aimed: a peer that stops answering pings but keeps talking: from some
+		// moment on PINGREQ/PINGRESP are swallowed while QoS 0 PUBLISHes keep
+		// arriving more often than the ping timeout. Inbound traffic of another
+		// kind is not the response to a ping: the first unanswered keep-alive
+		// ping must end the connection with ErrPingTimeout and a new one follows
+		cfg.Frag, cfg.JitterUs, cfg.Yields, cfg.Coalesce = nil, nil, nil, false
+		cfg.DeafToPings = true
+		rt := cfg.LatC2BUs + cfg.LatB2CUs
+		active := connectAt + cfg.DialLatUs + rt
+		at := active + r.between(1, 3*cfg.PingIntervalUs)
+		sc.Ops = sc.Ops[:1]
+		sc.Ops[0].CtxTimeoutUs = 0
+		sc.Faults = []Fault{{Kind: "silentFrom", Conn: 1, AtUs: at}}
+		sc.Script = nil
+		to := cfg.TimeoutUs
+		if to == 0 {
+			to = cfg.PingIntervalUs // the client's default
+		}
+		step := to / 3
+		if step < 1 {
+			step = 1
+		}
+		if step > cfg.PingIntervalUs/3 && cfg.PingIntervalUs >= 3 {
+			step = cfg.PingIntervalUs / 3
+		}
+		end := at + 4*cfg.PingIntervalUs + 2*to
+		n := 0
+		for t := active + 7; t < end && n < 200; t += step {
+			n++
+			sc.Script = append(sc.Script, Out{Conn: 1, AtUs: t, Kind: "pkt", Pkt: &Pkt{Type: TPublish, Topic: "a", QoS: 0, Pay: fmt.Sprintf("chat%d", n)}})
+		}
+		lastOp = end
+	}
 	if prop == "C09" && r.chance(0.03) {
 		// aimed: a long run of consecutive failures (dial errors and refusals),
 		// enough for any arithmetic on the back-off to leave its range, then success
